@@ -65,6 +65,10 @@ var payloads = []struct{ Name, S string }{
 	{"close-script", "</script>"},
 	// a metacharacter next to non-ASCII text in one string: an escaper that goes rune by rune or byte
 	// by byte must keep the other characters whole (U+0122 and U+015C end in the bytes 0x22 '"' and 0x5C)
+	// the verbs of a formatting function that takes the text as its format string
+	{"percent", "%"},
+	{"percent-s", "%s"},
+	{"percent-dquote", "%\""},
 	{"dquote+non-ascii", "\"é"},
 	{"newline+U+0122", "\nĢ"},
 	{"backslash+U+015C", "\\Ŝ"},
